@@ -83,6 +83,10 @@ func evalC15(op string, args []string) string {
 	if o.exceeded {
 		return "DEPTH-EXCEEDED"
 	}
+	// per HANDLE (the trace names files, not handles): a handle that was opened and never closed
+	if o.nopen != 0 {
+		return "err HandleLeak - " + itoa(o.nopen) + " - " + o.trace()
+	}
 	if err != nil {
 		f := dpClassify(err)
 		file, detail := "-", "-"
@@ -922,6 +926,10 @@ func evalC15IO(args []string) string {
 	d, err := p.ParseFile(root)
 	if o.exceeded {
 		return "DEPTH-EXCEEDED"
+	}
+	// per HANDLE (the trace names files, not handles): a handle that was opened and never closed
+	if o.nopen != 0 {
+		return "err HandleLeak - " + itoa(o.nopen) + " - " + o.trace()
 	}
 	if err != nil {
 		f := dpClassifyIO(err)
